@@ -67,7 +67,8 @@ def renderVal : Val → String
 
 def renderMsg (m : Msg) : String :=
   let kind := (reprStr m.kind).splitOn "." |>.getLast!
-  m.fields.foldl (fun acc (k, v) => acc ++ " " ++ keyName k ++ "=" ++ renderVal v) kind
+  m.fields.foldl (fun acc (k, v) => acc ++ " " ++ keyName k ++ "=" ++ renderVal v)
+    (kind ++ " type_name=" ++ (m.kind.typeName.replace " " "_"))
 
 def renderOptNat : Option Nat → String
   | none => "none"
@@ -209,6 +210,31 @@ def handle (s : St) (line : String) : St × String :=
     | some bs =>
       (s, match parseMessage s.cfg bs with
         | .ok m => "ok " ++ renderMsg m
+        | .err _ => "err"
+        | .panic _ => "panic")
+    | none => (s, "bad-op")
+  | ["T", "rotrate", code] =>
+    match code.toNat? with
+    | some c =>
+      -- `RateOfTurn { raw: c as i8 }.rate()`; the arithmetic is the driver's (single precision)
+      let raw : Int := if c < 128 then c else (c : Int) - 256
+      if RateOfTurn.parse c = .none then (s, "ok unavailable") else
+      (s, match RateOfTurn.rateRaw raw with
+        | .ok (some r) =>
+          let x : Float32 := Float32.ofInt r / 4.733
+          "ok f:" ++ hex32 (x * x).toBits.toNat
+        | .ok none => "ok none"
+        | .err _ => "err"
+        | .panic _ => "panic")
+    | none => (s, "bad-op")
+  | ["T", "rotdir", code] =>
+    match code.toNat? with
+    | some c =>
+      let raw : Int := if c < 128 then c else (c : Int) - 256
+      if RateOfTurn.parse c = .none then (s, "ok unavailable") else
+      (s, match RateOfTurn.direction raw with
+        | .ok (some d) => "ok " ++ d
+        | .ok none => "ok none"
         | .err _ => "err"
         | .panic _ => "panic")
     | none => (s, "bad-op")
